@@ -391,7 +391,7 @@ for _a in ("still", "animation", "still-of-animated"):
 def iterm2_display_unit(term, mix):
     label = f"ITerm2Image._display_animated[{term},mix={mix}]"
 
-    @unit("C06", f"iterm2:{label}")
+    @unit(("C06", "C20"), f"iterm2:{label}")
     def u(ctx):
         eng = ctx.engine(f"C06/old.{label}", "C06")
         eng.default_replay = "C06.old_draw_wezterm"
@@ -405,7 +405,12 @@ def iterm2_display_unit(term, mix):
         T = OldTerm(eng, st, True)
         install_print(eng, T)
         st.pc += [PW <= T.TW, PH <= T.TH]
-        self_ = st.new("ITerm2Image", {"_TERM": term})
+        # the image's own effective method is ANIM here (the most delicate case: frames of an animation cannot use it) while the
+        # caller of draw() asked for a method of its own for this call
+        self_ = st.new("ITerm2Image", {"_TERM": term, "_render_method": "anim"})
+        for k_ in ("LINES", "WHOLE", "ANIM"):
+            if k_ in ns.d:
+                eng.genv[k_] = ns.d[k_]
         eng.attrs[("ITerm2Image", "rendered_height")] = lambda e, s, v: [(h, s)]
         eng.attrs[("ITerm2Image", "rendered_width")] = lambda e, s, v: [(w, s)]
         eng.attrs[("ITerm2Image", "rendered_size")] = lambda e, s, v: [((w, h), s)]
@@ -434,10 +439,13 @@ def iterm2_display_unit(term, mix):
             e.oblige("C06:animation-starts-where-the-pre-erase-started(column-0-of-the-first-line)", s,
                      And(to_z3(g["row"]) == T.r0, to_z3(g["col"]) == 0, z3.BoolVal(g["parser"] == "ground")), kind="pre")
             e.oblige("frames-are-drawn-with-mix-on(the-cells-were-erased-once)", s, And(k.get("mix") is True, a[0] is img, a[2] is fmt), kind="pre")
+            passed = {k_: v_ for k_, v_ in k.items() if k_ != "mix"}
+            e.oblige("C20:style-arguments-of-this-call(method-override-included)-reach-the-frames-unchanged", s,
+                     passed == {"method": "lines", "compress": 7}, prop="C20", kind="pre", replay="C20.method_override")
             return [(None, s)]
         eng.genv["super"] = Fn(lambda e, s, a, k: [(Rec("super", {}), s)])
         eng.attrs[("super", "_display_animated")] = lambda e, s, v: [(Fn(super_display), s)]
-        st.env.update(self=self_, img=img, alpha=Opaque("alpha"), fmt=fmt, args=(z3.Int("repeat"), Opaque("cached")), mix=mix, kwargs=st.new("dict", {"@items": {}}))
+        st.env.update(self=self_, img=img, alpha=Opaque("alpha"), fmt=fmt, args=(z3.Int("repeat"), Opaque("cached")), mix=mix, kwargs=st.new("dict", {"@items": {"method": "lines", "compress": 7}}))
         outs = run_function(eng, ctx.fn("image/iterm2.py", "ITerm2Image._display_animated"), st)
         for kind, val, s in outs:
             if kind == "raise":
